@@ -89,6 +89,9 @@ def run(cmd, timeout=None, mem_gb=None, cwd=None, env=None):
             lim = int(mem_gb * (1 << 30))
             resource.setrlimit(resource.RLIMIT_AS, (lim, lim))
     t0 = time.time()
+    if env is None:
+        env = dict(os.environ)
+    env["PATH"] = os.path.join(VERIF, "bin", "shim") + os.pathsep + env.get("PATH", "")
     p = subprocess.Popen(cmd, stdout=subprocess.PIPE, stderr=subprocess.PIPE,
                          cwd=cwd, env=env, preexec_fn=pre)
     try:
@@ -158,6 +161,9 @@ def cbmc_cmd(ob, gb, trace=False, prop=None):
         cmd += ["--sat-solver", "cadical"]
     elif ob.solver == "kissat":
         cmd += ["--external-sat-solver", "kissat"]
+    elif ob.solver == "cvc5-int":
+        # SMT back end; bin/shim/cvc5 adds --solve-bv-as-int=sum (see run(): PATH is prefixed with bin/shim)
+        cmd += ["--cvc5", "--slice-formula"]
     cmd += ob.flags
     if trace:
         cmd += ["--trace"]
